@@ -148,6 +148,8 @@ class OptS(Spec):
 
 class ObjS(Spec):
     """object of a concrete class with specified fields"""
+    unwrap_opt = True
+
     def __init__(self, cls, fields, lazy=None, meta=None, pred=None):
         self.cls = cls
         self.fields = fields      # name -> Spec
@@ -212,11 +214,13 @@ class TupleS(Spec):
 class ListS(Spec):
     """summarised list: every element satisfies `elem` (a Spec);
     lenpred(len) constrains the length"""
-    def __init__(self, elem, lenpred=None, name='lst', fresh=False):
+    def __init__(self, elem, lenpred=None, name='lst', fresh=False,
+                 indexed=None):
         self.elem = elem
         self.lenpred = lenpred
         self.name = name
         self.fresh = fresh
+        self.indexed = indexed    # fn(abs_index, elem) -> formula
 
     def make(self, ex, st):
         n = fresh_int(self.name + '_len')
@@ -231,7 +235,11 @@ class ListS(Spec):
             return e
         mk.instances = []
         mk.spec = elem
-        return TokList([Many(n, mk, self.fresh, self.name)])
+        ix = None
+        if self.indexed:
+            fn = self.indexed
+            ix = lambda s1, i, e: s1.assume(fn(i, e))      # noqa: E731
+        return TokList([Many(n, mk, self.fresh, self.name, ix)])
 
     def check(self, ex, st, v, label, line=0):
         if isinstance(v, SSeq) and isinstance(v.ln, int) and v.ln == 0:
@@ -239,20 +247,37 @@ class ListS(Spec):
         if isinstance(v, tuple) and v and v[0] == '$reversed':
             from .builtins import list_reversed
             v = list_reversed(ex, st, v[1], line)
+        if hasattr(v, 'as_list'):
+            v = v.as_list(ex, st, label, line)
         if not isinstance(v, TokList):
             raise EngineError('%s: expected list, got %r' % (label, v))
         if self.lenpred:
             ex.prove(st, label + ':len', self.lenpred(v.length()), line)
+        off = 0
         for k, sg in enumerate(v.segs):
             if isinstance(sg, Single):
                 self.elem.check(ex, st, sg.obj, '%s:e%d' % (label, k), line)
+                if self.indexed:
+                    ex.prove(st, '%s:e%d:indexed' % (label, k),
+                             self.indexed(off, sg.obj), line)
+                off = off + 1
             else:
-                if getattr(sg.mk, 'spec', None) is self.elem:
+                if getattr(sg.mk, 'spec', None) is self.elem and \
+                        not self.indexed:
+                    off = off + sg.ln
                     continue
                 g = st.clone()
                 g.assume(zint(sg.ln) > 0)
                 e = sg.mk(g)
                 self.elem.check(ex, g, e, '%s:seg%d' % (label, k), line)
+                if self.indexed:
+                    j = fresh_int('j')
+                    g.assume(And(zint(off) <= j, j < zint(off) + zint(sg.ln)))
+                    if sg.indexed:
+                        sg.indexed(g, j, e)
+                    ex.prove(g, '%s:seg%d:indexed' % (label, k),
+                             self.indexed(j, e), line)
+                off = off + sg.ln
 
 
 class DictS(Spec):
@@ -286,7 +311,8 @@ class DictS(Spec):
 class FContract:
     def __init__(self, qual, params, requires=(), result=None, ensures=(),
                  post_objs=(), ghosts=None, label=None, effects=None,
-                 no_return=False, free=None, pure=False, olds=None):
+                 no_return=False, free=None, pure=False, olds=None,
+                 assumed_result=None, assumed_note='', returns_param=None):
         self.qual = qual
         self.params = params            # ordered dict name -> Spec | None
         self.requires = list(requires)
@@ -301,6 +327,11 @@ class FContract:
         self.free = free                # closure variables: name -> Spec
         self.pure = pure
         self.olds = olds                # fn(A) -> dict of entry values
+        # result spec used at call sites only: stronger than what is proved
+        # for the function itself -- an explicit, listed assumption
+        self.assumed_result = assumed_result
+        self.assumed_note = assumed_note
+        self.returns_param = returns_param   # function returns this argument
 
     def loop(self, ordinal):
         ls = self.loops.get(ordinal)
@@ -337,6 +368,13 @@ class FContract:
             ex.prove(st, 'post:does-not-return', False)
             return
         tr = '/'.join(st.trace[-4:])
+        if self.returns_param is not None:
+            want = A[self.returns_param]
+            same = result is want or (
+                isinstance(result, Obj) and isinstance(want, Obj) and
+                result.oid == want.oid)
+            ex.prove(st, 'post:returns-%s@%s' % (self.returns_param, tr),
+                     bool(same))
         if self.result is not None:
             sp = self.result(A)
             sp.check(ex, st, result, 'post:result@' + tr)
@@ -357,6 +395,8 @@ class FContract:
             if n not in A:
                 raise EngineError('call of %s lacks %s' % (self.qual, n))
             sp.check(ex, st, A[n], 'call:%s@%d:arg:%s' % (tag, line, n), line)
+            if isinstance(A[n], Opt) and getattr(sp, 'unwrap_opt', False):
+                A[n] = A[n].obj
         for lab, fn in self.requires:
             ex.prove(st, 'call:%s@%d:requires:%s' % (tag, line, lab), fn(A),
                      line)
@@ -372,7 +412,12 @@ class FContract:
             sp = sp(A) if callable(sp) and not isinstance(sp, Spec) else sp
             self._remake(ex, st, get, A, sp)
         r = None
-        if self.result is not None:
+        if self.returns_param is not None:
+            r = A[self.returns_param]
+        elif self.assumed_result is not None:
+            r = self.assumed_result(A).make(ex, st)
+            ex.used_assumptions.add(self.qual + ': ' + self.assumed_note)
+        elif self.result is not None:
             r = self.result(A).make(ex, st)
         for lab, fn in self.ensures:
             st.assume(fn(A, r))
@@ -381,6 +426,9 @@ class FContract:
 
     def _remake(self, ex, st, get, A, sp):
         cur = get(A)
+        if hasattr(sp, 'remake'):
+            sp.remake(ex, st, cur)
+            return
         new = sp.make(ex, st)
         if isinstance(cur, Obj) and isinstance(new, Obj):
             cur.fields.update(new.fields)
@@ -421,6 +469,10 @@ class ContractTable:
         self.dictcomp = None
         self.after_construct = None
         self.globals_hook = None
+        self.with_hook = None
+        self.attr_hook = None
+        self.stmt_hooks = {}      # qual -> fn(ex, stmt, st, fi): explicit
+        #                           assumption injection (listed in evidence)
         self.empty_hints = {}
         self.force = {}
 
